@@ -21,4 +21,16 @@ Rho(kind, z) == CASE kind = "linear" -> z
 LossValue(kind, f, r) == LET ff == IF kind = "linear" THEN "1" ELSE f
                              z == FDiv(FMul(r, r), FMul(ff, ff))
                          IN FSqrt(FMul(FMul(ff, ff), Rho(kind, z)))
+
+\* ---- the Estimator object: an ordered list of entries [ds, w, loss, f]; `new` takes any number of entries, `add_data` appends one.
+\* The cost vector is the concatenation, in entry order, of loss(r)/n_k scaled by w_k / (sum of ALL current weights) - whatever the
+\* construction history was.
+EstNew(entries) == entries
+EstAdd(est, e) == Append(est, e)
+EstWeightSum(est) == FSum([k \in 1..Len(est) |-> est[k].w])
+\* r: per entry the sequence of relative differences of its data set
+EstCostOf(est, r, k, i) == FMul(FDiv(LossValue(est[k].loss, est[k].f, r[k][i]), FOfInt(Len(r[k]))), FDiv(est[k].w, EstWeightSum(est)))
+RECURSIVE EstCostFrom(_, _, _)
+EstCostFrom(est, r, k) == IF k > Len(est) THEN <<>> ELSE [i \in 1..Len(r[k]) |-> EstCostOf(est, r, k, i)] \o EstCostFrom(est, r, k + 1)
+EstCost(est, r) == EstCostFrom(est, r, 1)
 ================================================================================
